@@ -429,6 +429,9 @@ func genC15(rng *rand.Rand, tier string) (cases []string) {
 			// (the buffer and chunk sizes below stay those of the small limit)
 		}
 		ncalls := rng.IntN(8)
+		if rng.IntN(50) == 0 {
+			ncalls = pick(rng, 33, 64, 65, 129) // many small reads / writes
+		}
 		if rng.IntN(2) == 0 {
 			var cs []string
 			for j := 0; j < ncalls; j++ {
